@@ -62,6 +62,9 @@ def main():
     if rc != 0:
         print("patch does not apply to /repo:", out); return 2
     results = {}
+    # the evidence files describe runs on the unchanged tree: keep them out of the way
+    ev_keep = os.path.join(ROOT, "work", "evidence.keep.%d" % os.getpid())
+    shutil.copytree(os.path.join(ROOT, "evidence"), ev_keep)
     try:
         for c in checks:
             t0 = time.time()
@@ -79,6 +82,8 @@ def main():
     finally:
         sh("git -C /repo checkout -- .")
         sh("git -C /repo clean -fdq lib bin server")
+        shutil.rmtree(os.path.join(ROOT, "evidence"), ignore_errors=True)
+        shutil.move(ev_keep, os.path.join(ROOT, "evidence"))
     report["checks_with_change"] = results
     report["caught_by"] = [c for c, r in results.items() if r["exit"] != 0]
     dst = os.path.join(ROOT, "seeded", name)
